@@ -19,6 +19,7 @@ structure St where
   openC : Option Rec := none
   finished : List (Nat × Nat) := []      -- main directory: (idx, frames) of finished recordings
   abandoned : List Nat := []             -- main directory: recordings left open at the crash
+  failedStarts : List Nat := []          -- main directory: starts that failed while writing the header (T stays)
 
 def init (f : List String) : St := { constOn := f.contains "const=1" }
 
@@ -56,6 +57,12 @@ def step (st : St) (bl : Block) : St × List String :=
       | none => st
     let st := setOpen st who (some { idx := idx, frames := 0 })
     (st, (startSteps idx).filterMap (showSys (pre who)) ++ ["ret ok"])
+  | ["h", who] =>
+    -- start whose header cannot be written: uses up a name, leaves a closed partial T, opens nothing
+    let isC := who == "c"
+    let idx := if isC then st.nextConst else st.nextMain
+    let st := if isC then { st with nextConst := idx + 1 } else { st with nextMain := idx + 1, failedStarts := idx :: st.failedStarts }
+    (st, (startFailSteps idx).filterMap (showSys (pre who)) ++ ["ret err"])
   | ["w", who, n] =>
     match getOpen st who with
     | some r => (setOpen st who (some { r with frames := r.frames + nat n }), ["ret ok"])
@@ -79,7 +86,8 @@ def step (st : St) (bl : Block) : St × List String :=
     -- main directory at the crash: finished recordings (F) and abandoned ones (T then S), by index
     let openIdx := ([st.openM, st.openT].filterMap (·.map (·.idx))) ++ st.abandoned
     let entries : List (Nat × List String) :=
-      (st.finished.map fun p => (p.1, [s!"F{p.1}"])) ++ (openIdx.map fun i => (i, [s!"T{i}", s!"S{i}"]))
+      (st.finished.map fun p => (p.1, [s!"F{p.1}"])) ++ (openIdx.map fun i => (i, [s!"T{i}", s!"S{i}"])) ++
+      (st.failedStarts.map fun i => (i, [s!"T{i}"]))
     let sorted := (List.range st.nextMain).flatMap fun i => (entries.filter (·.1 == i)).flatMap (·.2)
     let finals := (List.range st.finished.length).zip st.finished |>.map fun (k, p) =>
       s!"final {k} frames={p.2} background=1 decode=ok"
@@ -157,7 +165,12 @@ def monStep (m : MSt) (bl : Block) : MSt × List String :=
     match bl.outs.find? (fun o => o.head? == some "gate") with
     | some ["gate", _, got, _] => (m, fails ++ (if got == exp then [] else ["prop=C04 reason=disk-gate-wrong-" ++ what]))
     | _ => (m, fails ++ ["prop=C04 reason=disk-gate-no-output"])
-  | _ => (m, fails)
+  | _ =>
+    -- C12: no call of the file recorder panics, whatever failed before (the generator never writes to a
+    -- recorder that has no open recording)
+    match bl.outs.find? (fun o => o.head? == some "panic") with
+    | some o => (m, fails ++ ["prop=C12 reason=file-recorder-panics-in-" ++ joinSp (o.drop 1)])
+    | none => (m, fails)
 
 def monFinish (m : MSt) : List String :=
   [s!"STAT stream=fs syscalls={m.steps} crashstates={m.crashStates} renames={m.renames} abandonedfiles={m.leftovers} " ++
